@@ -436,3 +436,16 @@ Example C12_density_example :
   List.length (exact_items false (Bs "%c%c%c%c")) = 52%nat /\ List.length (Bs "%c%c%c%c") = 8%nat.
 Proof. exact density_example. Qed.
 Print Assumptions C12_density_example.
+
+(** the rendered text, both modes: the formatter writes exactly the items of the description up to
+    the first [Error]; lenient mode has no [Error], so every invalid specifier is written as the
+    accepted part of its source text followed by the re-parsed rest (and by the leaked items of the
+    composite after `%-D`-like specifiers: "%-D" prints "%-D/08/01" for 2001-07-08) *)
+Theorem C12_display_exact : forall a l s, utf8_valid s = true -> blen s <= u64_max ->
+  delayed_display a (mk_sfi s [] l) = write_items a (until_first_err (exact_items l s)) [].
+Proof. exact display_exact. Qed.
+Print Assumptions C12_display_exact.
+Theorem C12_lenient_display_exact : forall a s, utf8_valid s = true -> blen s <= u64_max ->
+  delayed_display a (sf_new_lenient s) = write_items a (exact_items true s) [].
+Proof. exact lenient_display_exact. Qed.
+Print Assumptions C12_lenient_display_exact.
